@@ -41,11 +41,19 @@ func assign(dst, src reflect.Value) error {
 				got = src.Elem().Type().String()
 			}
 		}
-		return fmt.Errorf("cannot use %v where %v is expected", got, dst.Type())
+		return &misfitError{msg: fmt.Sprintf("cannot use %v where %v is expected", got, dst.Type())}
 	}
 	dst.Set(src)
 	return nil
 }
+
+// misfitError reports that the replacement for one match could not be built
+// from what the metavariables and elisions stand for at that match: a call
+// where only a name may appear, an assignment left without operands. Another
+// match of the same change may well be fine.
+type misfitError struct{ msg string }
+
+func (e *misfitError) Error() string { return e.msg }
 
 // compileGeneric compiles a Replacer for arbitrary values inside a Go AST.
 func (c *replacerCompiler) compileGeneric(v reflect.Value) (r Replacer) {
@@ -176,7 +184,7 @@ func (r StructReplacer) Replace(d data.Data, cl Changelog, pos token.Pos) (refle
 	}
 	for _, name := range nonEmptyLists[r.Type] {
 		if v.FieldByName(name).Len() == 0 {
-			return reflect.Value{}, fmt.Errorf("cannot generate %v with an empty %v list", r.Type, name)
+			return reflect.Value{}, &misfitError{msg: fmt.Sprintf("cannot generate %v with an empty %v list", r.Type, name)}
 		}
 	}
 	return v, nil
